@@ -240,9 +240,15 @@ Proof.
 Qed.
 
 Lemma latex_toks_balanced : forall s,
-  balanced (TOpen s_latex :: raw s ++ [TClose s_latex]).
+  balanced (TOpen s_latex :: map TTxt s ++ [TClose s_latex]).
 Proof.
-  intros s. eapply tag_wrap_balanced; [reflexivity|apply balanced_raw].
+  intros s. eapply tag_wrap_balanced; [reflexivity|apply balanced_txt].
+Qed.
+
+Lemma alt_toks_balanced : forall d, balanced (raw s_alt_prefix ++ map TTxt d ++ [TRaw 60]).
+Proof.
+  intros d. apply balanced_app; [apply balanced_raw|].
+  apply balanced_app; [apply balanced_txt|reflexivity].
 Qed.
 
 Lemma sym_toks_balanced : forall font s,
@@ -851,7 +857,7 @@ Proof.
   destruct (str_eqb (e_ptag e) tag_FORM_CHECKBOX).
   { bind_inv H as x E1. eapply insert_then_ok; [apply balanced_raw|exact Hs|exact H]. }
   destruct (str_eqb (e_ptag e) tag_FORM_DDLIST).
-  { bind_inv H as x E1. eapply insert_then_ok; [apply balanced_raw|exact Hs|exact H]. }
+  { bind_inv H as x E1. eapply insert_then_ok; [apply balanced_txt|exact Hs|exact H]. }
   destruct (str_eqb (e_ptag e) tag_FOOTNOTE_REFERENCE).
   { eapply note_ref_ok; eauto. }
   destruct (str_eqb (e_ptag e) tag_ENDNOTE_REFERENCE).
@@ -860,7 +866,7 @@ Proof.
   { eapply image_ref_ok; eauto. }
   destruct (str_eqb (e_ptag e) tag_IMAGE_ALT).
   { destruct (attr_plain e s_descr) as [d|].
-    - eapply insert_then_ok; [apply balanced_raw|exact Hs|exact H].
+    - eapply insert_then_ok; [apply alt_toks_balanced|exact Hs|exact H].
     - injection H as H. subst r. exact Hs. }
   destruct (str_eqb (e_ptag e) tag_IMAGEDATA).
   { eapply image_ref_ok; eauto. }
